@@ -61,6 +61,46 @@ def texvm_part(ctx, n, seed_offset, name="TexVM.whole_programs", cut=False, cfg=
     return nev - nskip
 
 
+def texvm_source_part(ctx, n, seed_offset, name="TexVM.programs_read_from_their_characters"):
+    """The lexer in the loop: programs are written as characters, change category codes and \\endlinechar on the
+    way (locally, globally, inside groups, right in front of the character concerned) and use the characters
+    afterwards; the model reads the file itself - TexLexer.tla stepped one token at a time under the codes of the
+    moment, re-reading the unread rest of the file whenever they change - and must deliver what the VM delivers."""
+    ev = ctx.work / "texvm-src.ndjson"
+    vh(["tv-src", f"seed={ctx.seed * 104729 + seed_offset}", f"n={n}", f"out={ev}"])
+    nev, bad = validate_calls(ctx, "Trace_TexVM", "Trace_TexVM.cfg", ev, parts=max(1, min(NCPU - 2, n // 300 + 1)))
+
+    def desc(e, v):
+        def show(cs):
+            return "".join(chr(c) if c > 0 else f"<{c}>" for c in cs)
+        w = v.get("want", {})
+        return (f"program read from its characters ({v['key']}) {e['src']!r}: VM delivered {show(e['out'])!r} "
+                f"errat={e['errat']} fatal={e['fatal']} finals={e['finals']}; TexVM (lexer in the loop) says "
+                f"{show(w.get('out', []))!r} err={w.get('err')!r} registers={w.get('cnt')}")
+    nskip = judge_calls(ctx, bad, "Trace_TexVM", {}, desc)
+    clean = sum(1 for ln in open(ev) if '"fatal":0' in ln and '"errat":-1' in ln)
+    ctx.add_bound(name, nev - nskip, nev - nskip, skipped_outside_model=nskip, runs_without_error=clean)
+    a = ("TexVM (lexer in the loop): category codes of | * [ ] % ~ ! < change (all codes but letters' and digits' "
+         "own characters are left alone, so a character token is a digit or keyword letter iff its code says so); "
+         "\\endlinechar is -1, 13, 32, 37 or a special character; a name outside the model's vocabulary is an "
+         "undefined control sequence; an invalid character (category 15) swallowed by a scan is outside the model")
+    if a not in ctx.assumptions:
+        ctx.assumptions.append(a)
+    return nev - nskip
+
+
+def texvm_source_selftest(ctx):
+    ev = ctx.work / "st-texvm-src.ndjson"
+    vh(["tv-src", "seed=11", "n=300", f"out={ev}"])
+
+    def corrupt(e):
+        if e["fatal"] == 0 and e["errat"] == -1 and len(e["out"]) >= 2:
+            e["out"] = e["out"][:-1]
+            return e
+        return None
+    selftest_calls(ctx, "source-output-corrupted", "Trace_TexVM", "Trace_TexVM.cfg", ev, corrupt)
+
+
 def texvm_selftest(ctx):
     ev = ctx.work / "st-texvm.ndjson"
     vh(["tv-events", "seed=5", "n=400", f"out={ev}"])
